@@ -1,5 +1,6 @@
 import Pycoin.Model.Address
 import Pycoin.Model.Base58
+import Pycoin.Model.Base58Hash
 import Pycoin.Model.Bech32
 import Pycoin.Model.Hash
 /-!
@@ -19,10 +20,10 @@ def asciiBytesOf (s : String) : Bytes := s.toList.map (fun c => UInt8.ofNat c.to
 def isAscii (s : String) : Bool := s.toList.all (fun c => c.toNat < 128)
 
 def realEnv : Env where
-  b58cEnc d := match Base58.b2aHashed d with
+  b58cEnc k d := match Base58.b2aHashedK k d with
     | .ok s => asciiString s
-    | .error _ => "<b2a_hashed_base58 raised>"     -- C11_b58check_rt: never
-  b58cDec s := if isAscii s then Base58.parseB58DoubleSha256 (asciiBytesOf s) else none
+    | .error _ => "<b2a_hashed_base58 raised>"     -- Base58.b2aK_ok: never
+  b58cDec k s := if isAscii s then Base58.parseB58HashedK k (asciiBytesOf s) else none
   segwitEnc hrp ver prog := match Bech32.encode hrp.toList ver (prog.map (·.toNat)) with
     | .ok (some cs) => some (String.ofList cs)
     | _ => none
